@@ -23,8 +23,9 @@ extern "C" {
 }
 
 // Observers for the two known deviations (both need -Wl,--wrap): the dispatch tables reach the SIMD symbols through these.
-//  F22: silk_NSQ_del_dec_avx2 scales the reconstructed sample with a 64-bit product while the C code (and the decoder) wrap at
-//       32 bits; they can only differ when the AVX2 result holds a saturated sample.
+//  F22: silk_NSQ_del_dec_avx2 does not reproduce the C arithmetic once the quantiser state has run away (64-bit product in
+//       silk_sar_round_smulww, wrapping (a+8)>>4 in silk_mm_srai_round_epi32); both need the AVX2 result to hold a saturated
+//       output sample, which is the observable class.
 //  F21: celt_fir_sse4_1 saturates at -32768, celt_fir_c at -32767.
 static bool g_avx2_saturated = false, g_fir_min = false;
 // OPUS_CHECK_ASM builds: the kernel's own self-check aborts (silk_assert -> abort()) after the AVX2 result has been written.
